@@ -1,30 +1,28 @@
-"""Writes MANIFEST.json from the table below (kept valid at all times)."""
+"""Writes MANIFEST.json from manifest/Cxx.json (one file per claimed property) and
+manifest/not_applicable.json (optional {pid: reason}).  Kept valid at all times."""
 import json
 import os
 import sys
 
 VERIF = os.path.dirname(os.path.dirname(os.path.abspath(__file__)))
-
-CLAIMED = {
-    "C04": dict(
-        text="Machine-checked proof (Coq 8.16.1) over an executable Gallina model of _compute_arguments_dict_matching_score and _compute_event_comparison_score: soundness and completeness w.r.t. an independent inductive specification written from the documentation, for patterns and payloads of unbounded depth; no-smaller-container, unmentioned-parameter and score-range theorems; instance rules at event level. The model is tied to the source on every run by (T) constants and the presence of the three length guards translated from statemachine.py/flows.py with Python's ast (a missing guard breaks a proof obligation) and (X) a differential run of the real functions against the model evaluated inside Coq (vm_compute) on generated pattern/payload pairs, plus an independent re-statement of the documented rules used to search for a failing input.",
-        design_ref="4/C04, 3.4",
-        note="Trusted: Coq kernel incl. vm_compute; translator/consts.py; harness/c04.py generators and the Python printer of Coq terms; re.search and str() of scalars are arbitrary oracles in the theorems; scores are exact powers factor^k (float underflow not modelled); dict keys are strings. Print Assumptions: closed under the global context.",
-        technique="Coq proof: structural induction on patterns + translated constants + in-Coq differential against the real matcher",
-    ),
-}
-
-NOT_YET = {}
-
 ALL = [f"C{i:02d}" for i in range(1, 21)]
+DEFAULT_REASON = ("check not built yet: the Coq model and correspondence for this property are still under "
+                  "construction (see DESIGN.md section 4); nothing is claimed until its check runs clean on the unchanged tree")
 
 
 def main():
-    checks = []
+    mdir = os.path.join(VERIF, "manifest")
+    claimed = {}
     for pid in ALL:
-        if pid not in CLAIMED:
-            continue
-        c = CLAIMED[pid]
+        p = os.path.join(mdir, pid + ".json")
+        if os.path.exists(p):
+            claimed[pid] = json.load(open(p))
+    na_reasons = {}
+    p = os.path.join(mdir, "not_applicable.json")
+    if os.path.exists(p):
+        na_reasons = json.load(open(p))
+    checks = []
+    for pid, c in claimed.items():
         checks.append(
             {
                 "property_id": pid,
@@ -33,15 +31,16 @@ def main():
                 "evidence_file": f"/verif/evidence/{pid}.json",
                 "replay_cmd_template": f"./check {pid} --replay {{path}}",
                 "engine": "coq-proof+correspondence",
-                "level_claimed": {"category": "proof", "text": c["text"], "design_ref": c["design_ref"]},
+                "level_claimed": {"category": c.get("category", "proof"), "text": c["text"], "design_ref": c["design_ref"]},
                 "level_note": c["note"],
                 "technique": c["technique"],
             }
         )
-    na = []
-    for pid in ALL:
-        if pid not in CLAIMED:
-            na.append({"property_id": pid, "reason": NOT_YET.get(pid, "check not built yet: the Coq model and correspondence for this property are still under construction (see DESIGN.md section 4); nothing is claimed until its check runs clean on the unchanged tree")})
+    na = [{"property_id": pid, "reason": na_reasons.get(pid, DEFAULT_REASON)} for pid in ALL if pid not in claimed]
+    hooks_commits = []
+    hp = os.path.join(mdir, "hooks.json")
+    if os.path.exists(hp):
+        hooks_commits = json.load(open(hp)).get("source_commits", [])
     m = {
         "version": 1,
         "setup_cmd": "./setup.sh",
@@ -49,14 +48,14 @@ def main():
             "guard": "NEMO_GUARDRAILS_VERIF",
             "enable": "checks run /repo's working tree in-process with NEMO_GUARDRAILS_VERIF=1 (no build step; Python)",
             "baseline_off_cmd": "cd /repo && env -u NEMO_GUARDRAILS_VERIF /venv/bin/python -m pytest -ra -q -p no:cacheprovider --timeout=900 --continue-on-collection-errors",
-            "source_commits": [],
+            "source_commits": hooks_commits,
             "add_only": True,
         },
         "engines": [
             {
                 "name": "coq-proof+correspondence",
                 "path": "/verif/coq, /verif/harness, /verif/translator",
-                "serves_properties": sorted(CLAIMED),
+                "serves_properties": sorted(claimed),
                 "kind_free_text": "Coq 8.16.1 development (models, theorems in coq/theories/Props), translators regenerating coq/theories/Gen from /repo on every run, and a correspondence harness evaluating the models inside Coq (vm_compute) against the real Python implementation",
             }
         ],
